@@ -338,6 +338,15 @@ def sharded_rank_fn(spec, tmpdir=None):
                     # that may be loaded again later): loading must leave it as it was
                     loaded_obj = sd if spec.get('load_same_object') else copy.deepcopy(sd)
                     p.load_state_dict(loaded_obj, compute_inverses=ev[1])
+                    if spec.get('load_old_between') and not tmpdir and len(rec['sd']) >= 2:
+                        # in-memory checkpoints: an older state is loaded as well (a rollback that is then undone), and the
+                        # checkpoint once more - no factor update in between; every loaded object must stay what it was
+                        j_old = len(rec['sd']) - 2
+                        old_obj = copy.deepcopy(rec['sd'][j_old]['state'])
+                        p.load_state_dict(old_obj, compute_inverses=ev[1])
+                        p.load_state_dict(loaded_obj, compute_inverses=ev[1])
+                        rec['sd'][-1]['reloaded_after_older'] = True
+                        kept_loaded.append((j_old, old_obj))
                     saved = rec['sd'][-1]['state']
                     intact = set(loaded_obj) == set(saved)
                     if intact and 'layers' in saved:
